@@ -5,6 +5,9 @@
 //                               px.Wrap → value; px.WrapReflectedType → type; IsInstance(type, value);
 //                               Reflector.ReflectTo into a fresh value of the same Go type → reflect.DeepEqual
 //       out = <wrapped value> | <derived type> | inst=<t|f> | back=<go-value|fault> eq=<t|f>
+//   obj <struct-type> <go-value>  (flat structs: modelled; otherwise sent as @obj) register the struct type, wrap the struct →
+//                               object → InitHash; px.New positional and named (each unless ambiguous) → ReflectTo → DeepEqual
+//       out = <init hash> [| pos=ok back=<go-value> eq=<t|f> | pos=reported CODE] [| named=…]
 // ops (implementation only, labelled tests — no model counterpart):
 //   @obj <struct-type> <go-value>  register every struct type bottom-up with TypeFromReflect (named T::S<i>), wrap the
 //                               struct → object; derived type accepts it; ReflectTo back; px.New(type, InitHash) → ReflectTo
